@@ -77,4 +77,19 @@ def snapAgrees (ks : List Known) (snap : List FrameSnap) : Bool :=
 def noteSnap (ks : List Known) (snap : List FrameSnap) : List Known :=
   snap.foldl (fun ks f => { handle := f.handle, id := f.id, ext := f.ext, names := [f.name] } :: ks.filter (·.handle != f.handle)) ks
 
+/-!
+## Deleting removes the frame that was named, and only that one
+
+`remove_frame(frame)` / `del_frame(frame)` take the frame object out of the matrix, `del_frame("name")` the first frame of
+that name; everything else stays, in order.  Judged on the snapshots before and after the call.
+-/
+
+def removedHandle (before after : List FrameSnap) (h : Nat) : Bool :=
+  after.map (·.handle) == (before.map (·.handle)).erase h
+
+def removedName (before after : List FrameSnap) (name : String) : Bool :=
+  match before.find? (·.name == name) with
+  | some f => after.map (·.handle) == (before.map (·.handle)).erase f.handle
+  | none => after.map (·.handle) == before.map (·.handle)
+
 end CanVerif.Spec
